@@ -634,7 +634,7 @@ theorem cr_finishCore (T : Tables) (cfg : Cfg) {pre : List Obj} {c c' : Core} (m
   | chrStart => exact cr_pushChar T [] h
   | plain p => cases p <;> first | exact h | exact cr_fail _ h
 
-theorem finishCore_tok_irrel (T : Tables) (cfg : Cfg) (c : Core) (m : Mode) (tok tok' : List Byte)
+theorem finishCore_tok_dead (T : Tables) (cfg : Cfg) (c : Core) (m : Mode) (tok tok' : List Byte)
     (hm : ¬ tokLive m) : finishCore T cfg c m tok = finishCore T cfg c m tok' := by
   unfold finishCore
   cases m with
@@ -665,7 +665,7 @@ theorem rel_finish1 (T : Tables) (cfg : Cfg) {pre : List Obj} {off : Nat} {s s' 
       by_cases ht : tokLive s'.mode
       · rw [h.tok ht]
         exact cr_finishCore T cfg _ _ h.core h.base
-      · rw [finishCore_tok_irrel T cfg s.core s'.mode s.tok s'.tok ht]
+      · rw [finishCore_tok_dead T cfg s.core s'.mode s.tok s'.tok ht]
         exact cr_finishCore T cfg _ _ h.core h.base
     exact resultOf_shift off s'.pos hcr (good_finishCore T cfg _ _ hg)
 
@@ -1134,5 +1134,82 @@ theorem locate (T : Tables) (hT : tablesOK T = true) (hC : contOK T = true) (cfg
           rw [hs0] at hstep
           have := rel_run1 T hC { cfg with one := false } rfl rest hstep
           simpa [run1] using this
+
+theorem resultOf_ok_inv {c : Core} {n : Nat} {code : List Obj} {q : Nat} (h : resultOf c n = .ok code q) :
+    code = c.code ∧ (c.halt = some (.one q) ∨ (c.halt = none ∧ q = n)) := by
+  unfold resultOf at h
+  split at h
+  · cases h
+  · rename_i hq; cases h; exact ⟨rfl, Or.inl hq⟩
+  · rename_i hq; cases h; exact ⟨rfl, Or.inr ⟨hq, rfl⟩⟩
+
+/-- the continuation form of the one-form position (see `Theorems/C02.readOne_continuation`) -/
+theorem readOne_cont (T : Tables) (hT : tablesOK T = true) (hC : contOK T = true) (cfg : Cfg)
+    (bs : List Byte) (o : Obj) (pos : Nat) (h : readOne T cfg bs = .ok (o, pos)) :
+    readAll T { cfg with one := false } bs =
+      (readAll T { cfg with one := false } (bs.drop pos)).shift [o] pos := by
+  have hloc := locate T hT hC cfg bs init1 (by simp [init1]) (by simp [init1])
+    (by simpa [init1] using inv_init)
+  unfold readOne at h
+  split at h
+  · rename_i o' tl pos' hall
+    cases h
+    unfold readAll finish1 at hall
+    cases hh : (run1 T { cfg with one := true } init1 bs).core.halt with
+    | some x =>
+      simp only [hh] at hall
+      obtain ⟨hcode, hcase⟩ := resultOf_ok_inv hall
+      rcases hcase with hone | ⟨hnone, _⟩
+      · rw [hh] at hone
+        cases hone
+        obtain ⟨o2, hc2, _, _, hrel⟩ := hloc.2 pos hh
+        rw [hc2] at hcode
+        cases hcode
+        have hrel' : Rel [o] pos (run1 T { cfg with one := false } init1 bs)
+            (run1 T { cfg with one := false } init1 (bs.drop pos)) := by
+          simpa [init1] using hrel
+        unfold readAll
+        exact rel_finish1 T _ hrel' (good_run1_off T hT _ rfl _ init1 (by simp [Good, init1]))
+      · rw [hh] at hnone; cases hnone
+    | none =>
+      simp only [hh] at hall
+      obtain ⟨hc0, heq⟩ := hloc.1 hh
+      obtain ⟨hcode, hcase⟩ := resultOf_ok_inv hall
+      have hinv : Inv (run1 T { cfg with one := true } init1 bs).core :=
+        inv_run1 T _ bs init1 (by simpa [init1] using inv_init)
+      have hem := emit_finishCore T { cfg with one := true } (run1 T { cfg with one := true } init1 bs).mode
+        (run1 T { cfg with one := true } init1 bs).tok hinv
+      obtain ⟨_, _, _, hF⟩ := emit_one hem hc0 hcode.symm
+      have hg := good_finishCore T { cfg with one := true } (run1 T { cfg with one := true } init1 bs).mode
+        (run1 T { cfg with one := true } init1 bs).tok (good_of_none hh)
+      have hFh : (finishCore T { cfg with one := true } (run1 T { cfg with one := true } init1 bs).core
+          (run1 T { cfg with one := true } init1 bs).mode (run1 T { cfg with one := true } init1 bs).tok).halt = none := by
+        rcases hcase with h1 | ⟨h1, _⟩
+        · rcases hg with h0 | ⟨e, _, h3⟩
+          · rw [h0] at h1; cases h1
+          · rw [h3] at h1; cases h1
+        · exact h1
+      have hpos : pos = bs.length := by
+        rcases hcase with h1 | ⟨_, h2⟩
+        · rw [hFh] at h1; cases h1
+        · rw [h2, run1_pos]; simp [init1]
+      subst hpos
+      have hf := finishCore_cfg T { cfg with one := true } { cfg with one := false } rfl rfl
+        (run1 T { cfg with one := true } init1 bs).core (run1 T { cfg with one := true } init1 bs).mode
+        (run1 T { cfg with one := true } init1 bs).tok
+      rw [List.drop_length]
+      have hnil : readAll T { cfg with one := false } [] = .ok [] 0 := rfl
+      rw [hnil]
+      unfold readAll finish1
+      rw [← heq, hh]
+      simp only []
+      rw [← hf]
+      unfold resultOf
+      rw [hFh]
+      simp only [hF, Result.shift, List.append_nil, Nat.add_zero]
+      rw [run1_pos]
+      simp [init1]
+  · cases h
+  · cases h
 
 end SlipVerif.Reader
